@@ -5,7 +5,7 @@ from hypothesis import strategies as st
 
 from .. import hist, wire
 from ..engine import ok, require
-from ..simkit import ADDRS, ServerRec, Sim, cfg, ep_desc, desc_semantic, make_sd, sd, sd_bytes, sent_entries, timings
+from ..simkit import ServerRec, peer_addr, Sim, cfg, ep_desc, desc_semantic, make_sd, sd, sd_bytes, sent_entries, timings
 from ..ttlmodel import TTLModel
 from ..vloop import RES
 from .c07 import ref_detect
@@ -15,8 +15,8 @@ RULE = (
     "exhaustive: every history of bounded length over {subscribe ttl 1, subscribe infinite, stop-subscribe, "
     "reboot+subscribe in one message, reboot-only message, service stop, service start, reject-next} x timing prefixes "
     "{next TTL deadline -RES/4, +RES/4, +0.5 s} for one subscriber and one eventgroup; random: Hypothesis histories of "
-    "1..14 steps from 3 subscribers, 2 instances, eventgroups {1,2}, counters {0,1,15}, zero/one/two IPv4/IPv6 endpoint "
-    "options plus non-endpoint options, TTL from {1,2,3,0xFFFFFE,inf}, several entries per message, reboot evidence in "
+    "1..14 steps from 8 subscribers (3 unrelated, 5 differing from one of them only in scope id / flow label / port / host) and 'crowd' steps (5..140 further peers send one message each), 2 instances, eventgroups {1,2}, counters {0,1,15}, zero/one/two IPv4/IPv6 endpoint "
+    "options (also two that differ in the transport protocol or the address family only) plus non-endpoint options, TTL from {1,2,3,0xFFFFFE,inf}, several entries per message, reboot evidence in "
     "the same or a separate message and on the multicast channel, listener decisions drawn per call, announcer "
     "stop/start, stop_announce/announce of one instance, connection loss; schedule-aware timing as in C05. "
     "non-trivial = reboot evidence and a Subscribe in one message, or a rejected Subscribe, or a step within RES of a "
@@ -35,7 +35,10 @@ EXHAUSTIVE = {"quick": "all 11^4 = 14641 histories of length 4 over the 8-event 
 INF = 0xFFFFFF
 INSTANCES = [(0x3000, 1, 1, frozenset({1, 2})), (0x3000, 2, 1, frozenset({1}))]
 EPSETS = [[["10.0.0.2", 4000, 17]], [["2001:db8::3", 4001, 17]], [["10.0.0.2", 4000, 6]], [],
-          [["10.0.0.2", 4000, 17], ["10.0.0.2", 4002, 17]]]
+          [["10.0.0.2", 4000, 17], ["10.0.0.2", 4002, 17]],
+          [["10.0.0.2", 4000, 17], ["10.0.0.2", 4000, 6]],          # the same address and port over UDP and TCP
+          [["10.0.0.2", 4000, 17], ["2001:db8::3", 4000, 17]]]
+CROWD0 = 100
 
 ALPHA = ["s1", "sinf", "stopsub", "rb+s", "rb", "svc-stop", "svc-start", "reject", "T-q", "T+q", "+0.5"]
 
@@ -81,7 +84,7 @@ def _entry(draw):
     e = {"t": t}
     if t != "find":
         e.update(i=draw(st.integers(0, 1)), eg=draw(st.sampled_from([1, 1, 2])), counter=draw(st.sampled_from([0, 0, 1, 15])),
-                 eps=draw(st.sampled_from([0, 0, 0, 1, 2, 3, 4])), extra=draw(st.sampled_from([0, 0, 1])))
+                 eps=draw(st.sampled_from([0, 0, 0, 1, 2, 3, 4, 5, 5, 6])), extra=draw(st.sampled_from([0, 0, 1])))
     if t == "sub":
         e["ttl"] = draw(st.sampled_from([1, 1, 2, 3, 0xFFFFFE, INF]))
     return e
@@ -89,10 +92,14 @@ def _entry(draw):
 
 @st.composite
 def _step(draw):
-    op = draw(st.sampled_from(["msg"] * 7 + ["svc-stop", "svc-start", "unannounce", "announce", "lost", "reject-next", "reject-next"]))
+    op = draw(st.sampled_from(["msg"] * 14 + ["svc-stop", "svc-start", "unannounce", "announce", "lost", "reject-next", "reject-next"] * 2 + ["crowd"]))
     s = {"op": op, "when": draw(when_st)}
+    if op == "crowd":
+        # `n` further peers send one SD message each (their next one)
+        s.update(n=draw(st.sampled_from([5, 33, 70, 140])), mc=draw(st.booleans()))
     if op == "msg":
-        s.update(src=draw(st.integers(0, 2)), mc=draw(st.sampled_from([False, False, False, True])),
+        # subscribers 0-2 are unrelated, 3-7 differ from one of them in one component of the socket address only
+        s.update(src=draw(st.sampled_from([0, 1, 2, 0, 1, 2, 0, 1, 2, 3, 4, 5, 6, 7])), mc=draw(st.sampled_from([False, False, False, True])),
                  entries=draw(st.lists(_entry(), min_size=1, max_size=3)), sess=draw(st.sampled_from(["next", "next", "next", "reset", "repeat"])))
     return s
 
@@ -192,8 +199,17 @@ def run_case(case):
         def execute(i, s):
             op = s["op"]
             now = sim.now
-            if op == "msg":
-                src = ADDRS[s["src"] % len(ADDRS)]
+            if op == "crowd":
+                mc = bool(s.get("mc"))
+                for k_ in range(max(0, min(300, int(s.get("n", 0))))):
+                    src = peer_addr(CROWD0 + k_)
+                    flag, sid = sess.get((src, mc), (True, 0))
+                    flag, sid = (flag, sid + 1) if sid < 0xFFFF else (False, 1)
+                    sess[(src, mc)] = (flag, sid)
+                    ref_detect(sessions, (src, mc), flag, sid)
+                    prot.datagram_received(sd_bytes([{"t": "find", "svc": 0x7777}], sid, reboot=flag), src, mc)
+            elif op == "msg":
+                src = peer_addr(s["src"] % 8)
                 mc = bool(s["mc"])
                 k = (src, mc)
                 flag, sid = sess.get(k, (True, 0))
